@@ -63,6 +63,13 @@ structure Sig where
   ver : Nat := 0
 deriving DecidableEq, Repr, Inhabited
 
+/-- One index of a subscript whose components are all integer constants: `k`, or `lo:up:step` (a missing
+component is `none`; `:` is `slice none none none`). -/
+inductive Idx
+  | scalar (k : Int)
+  | slice (lo up st : Option Int)
+deriving DecidableEq, Repr, Inhabited
+
 inductive Expr
   | var (x : Name)
   | lit (l : Lit)
@@ -74,6 +81,9 @@ inductive Expr
   | unop (o : String) (a : Expr)
   /-- `a <o> b` single comparison (`Lt`, `NotEq`, …). -/
   | cmp (o : String) (a b : Expr)
+  /-- `base[i1, …, in]` with constant integer indices / slices (`_translate_subscript_expr`; only the
+  emitted structure is modelled, the meaning of indexing belongs to C11). -/
+  | subscript (base : Expr) (idx : List Idx)
   /-- anything else (`a and b`, `x if c else y`, …): `_translate_expr` raises ValueError. -/
   | other (uses : List Name)
 deriving Repr, Inhabited
@@ -139,6 +149,7 @@ def usedVars : Expr → VSet
   | .binop _ a b => vunion (usedVars a) (usedVars b)
   | .unop _ a => usedVars a
   | .cmp _ a b => vunion (usedVars a) (usedVars b)
+  | .subscript base _ => usedVars base
   | .other us => vofList us
 def usedVarsL : List Expr → VSet
   | [] => []
@@ -254,6 +265,7 @@ def exprOpsetOK (v : Nat) : Expr → Bool
   | .binop _ a b => exprOpsetOK v a && exprOpsetOK v b
   | .unop _ a => exprOpsetOK v a
   | .cmp _ a b => exprOpsetOK v a && exprOpsetOK v b
+  | .subscript base _ => exprOpsetOK v base
   | _ => true
 def exprsOpsetOK (v : Nat) : List Expr → Bool
   | [] => true
